@@ -37,7 +37,7 @@ Definition out_fit (r : fit_err + fitres Qc Qc) :=
   | inr res => (0%Z, 0%Z, map qout (r_x Qc Qc res), match r_unc Qc Qc res with Some u => map qout u | None => [] end)
   end.
 Definition out_kwargs (k : kwargs Qc) :=
-  (map qout (k_x0 Qc k), map (fun b => (qout (fst b), qout (snd b))) (k_bounds Qc k),
+  (map qout (k_x0 Qc k), map (fun b => qout (fst b)) (k_bounds Qc k), map (fun b => qout (snd b)) (k_bounds Qc k),
    map (fun iv => (Z.of_nat (fst iv), qout (snd iv))) (k_fixed Qc k)).
 
 (* ---- feasibility and the certificate, all exact ---- *)
@@ -55,13 +55,22 @@ Definition certify (M : model QcNum) (mask : list bool) (bounds : list (Qc * Qc)
   match affine_terms QcNum m mask star M with
   | None => {| v_affine := false; v_inbox := in_boxb QcNum star bounds; v_pos := false; v_wok := false; v_eps := 0%Qc; v_epsw := 0%Qc |}
   | Some terms =>
+      let g := grad QcNum m terms star in
+      let wok := in_boxb QcNum w box && rates_posb QcNum terms w in
       {| v_affine := shapes_okb QcNum m terms;
          v_inbox := in_boxb QcNum star bounds;
          v_pos := rates_posb QcNum terms star;
-         v_wok := in_boxb QcNum w box && rates_posb QcNum terms w;
-         v_eps := eps QcNum terms star box;
-         v_epsw := eps_witness QcNum terms star w box |}
+         v_wok := wok;
+         (* eps QcNum terms star box, evaluated only when it is needed as the fallback *)
+         v_eps := if wok then 0%Qc else eps_sum QcNum g star box;
+         (* eps_witness QcNum terms star w box, sharing the gradient *)
+         v_epsw := if wok then sadd QcNum (dot QcNum g (vsub QcNum star w)) (eps QcNum terms w box) else 0%Qc |}
   end.
+Lemma certify_eps_unfold terms star box : eps QcNum terms star box = eps_sum QcNum (grad QcNum (length star) terms star) star box.
+Proof. reflexivity. Qed.
+Lemma certify_epsw_unfold terms star w box :
+  eps_witness QcNum terms star w box = sadd QcNum (dot QcNum (grad QcNum (length star) terms star) (vsub QcNum star w)) (eps QcNum terms w box).
+Proof. reflexivity. Qed.
 Definition out_verdict (v : verdict) :=
   (v_affine v, v_inbox v, v_pos v, v_wok v, qout (v_eps v), qout (v_epsw v)).
 
